@@ -16,6 +16,7 @@ from pyvc.api import *
 from pyvc.values import _t
 from pyvc import smt, builtins as bi
 from pyvc.interp import Opaque, PyExc, Instance
+from pyvc.values import _t as _tt
 from contracts import lib_base
 
 S_ = 'petl.transform.sorts.'
@@ -136,3 +137,40 @@ def make(cache):
 
 make(True)
 make(False)
+
+
+# ------------------------------------------------------------------------------------------------ _Keyed
+from contracts import lib_order
+from contracts.lib_order import LT, EQ, CmpObj
+from pyvc.interp import Instance as _Instance, BoundMethod as _BM
+
+
+@vc('C05.Keyed', functions=[S_ + '_Keyed.__eq__', S_ + '_Keyed.__lt__', S_ + '_Keyed.__le__', S_ + '_Keyed.__ne__', S_ + '_Keyed.__gt__', S_ + '_Keyed.__ge__'],
+    props=['C05', 'C11'],
+    assumptions=['keys are Comparable objects (contract lib_order, discharged by C04.ladder)',
+                 'T5: heapq.merge compares [value, run order, ...] entries: with == decided by the key alone, ties fall through to the run order (stable merge)'])
+def keyed(h):
+    def body(ctx):
+        it = h.interp(ctx, summaries=lib_order.SUMMARIES)
+        ctx.facts.extend(lib_order.ORDER_LAWS_CORE)
+        ctx._order_laws = True
+        cls = closure_of(it, S_ + '_Keyed')
+        ka, kb = z3.Consts('ka kb', smt.V)
+        ctx.assume(z3.And(lib_order.DOMAIN(ka), lib_order.DOMAIN(kb)))
+
+        def mk(k, tag):
+            o = _Instance(cls)
+            o.attrs['key'] = CmpObj(k)
+            o.attrs['obj'] = Opaque('row-' + tag)          # any use of the row by a comparison would be unsupported
+            return o
+        a, b = mk(ka, 'a'), mk(kb, 'b')
+        spec = {'__eq__': EQ(ka, kb), '__ne__': z3.Not(EQ(ka, kb)), '__lt__': LT(ka, kb), '__le__': z3.Or(LT(ka, kb), EQ(ka, kb)),
+                '__gt__': LT(kb, ka), '__ge__': z3.Not(LT(ka, kb))}
+        for m, want in spec.items():
+            f = cls.find(m)
+            if f is None:
+                ctx.oblige('_Keyed.%s is defined by the class (not inherited from tuple, which would compare the rows too)' % m, z3.BoolVal(False))
+                continue
+            r = it.call(_BM(f[0], a), [b], {})
+            ctx.oblige('_Keyed.%s compares the keys only' % m, _t(r) == want)
+    h.explore(body)
